@@ -250,6 +250,7 @@ func (w *World) teardownFree() {
 	}
 	w.tr.Frames = w.net.Frames()
 	w.tr.Panics = append(w.tr.Panics, w.net.Panics()...)
+	w.tr.Misuse = w.net.Misuse()
 	w.mu.Lock()
 	w.tr.Steps = w.step
 	w.mu.Unlock()
@@ -329,6 +330,9 @@ func monC15(c *Case, tr *Trace) []Violation {
 		if strings.HasPrefix(n, "RACE: ") {
 			add("data_race", "the race detector reported while this program ran:\n%s", n)
 		}
+	}
+	for _, m := range tr.Misuse {
+		add("carrier_stream_used_concurrently", "%s (gRPC streams allow one sender and one receiver at a time; the library must serialise its own use of the stream it was given)", m)
 	}
 	if tr.Aborted != "" {
 		// a hang under real parallelism: re-execute the same case in the simulation, where a deadlock is decidable
@@ -513,6 +517,7 @@ func (w *World) copyTrace() *Trace {
 		out.Labels[k] = v
 	}
 	out.Notes = append(out.Notes, src.Notes...)
+	out.Misuse = append(out.Misuse, src.Misuse...)
 	out.Panics = append(out.Panics, src.Panics...)
 	out.Yields = append(out.Yields, src.Yields...)
 	for _, o := range src.Ops {
@@ -548,4 +553,30 @@ func (w *World) copyTrace() *Trace {
 	}
 	w.net.mu.Unlock()
 	return out
+}
+
+// monCarrierUse: the simulation's share of C15 - with a bounded carrier a send can be parked inside the carrier's SendMsg
+// while a teardown call arrives; the library must not enter the same stream half a second time.
+func monCarrierUse(c *Case, tr *Trace) []Violation {
+	var vs []Violation
+	for _, p := range tr.Panics {
+		vs = append(vs, Violation{Prop: "C15", Class: "panic", Details: p})
+	}
+	for _, m := range tr.Misuse {
+		vs = append(vs, Violation{Prop: "C15", Class: "carrier_stream_used_concurrently", Details: m + " (gRPC streams allow one sender and one receiver at a time; the library must serialise its own use of the stream it was given)"})
+	}
+	return vs
+}
+
+func ntCarrierUse(c *Case, tr *Trace) bool {
+	// a teardown or cancellation event fired while the carrier was bounded
+	if c.Cfg.Cap == 0 {
+		return false
+	}
+	for _, e := range tr.Events {
+		if e.Fired >= 0 {
+			return true
+		}
+	}
+	return false
 }
